@@ -57,7 +57,7 @@ KINDS = {
     "int": dict(name="v", ann="int", conf=[0, 1, 7], bad=["s", None, 1.5], lit="1", lit_spec=1),
     "str": dict(name="s", ann="str", conf=["", "a"], bad=[1, None], lit="'d'", lit_spec="d"),
     "float": dict(name="f", ann="float", conf=[0.5, 2], bad=["x"], lit="1.5", lit_spec=1.5),
-    "optint": dict(name="o", ann="Optional[int]", conf=[None, 3], bad=["x"], lit="None", lit_spec=None),
+    "optint": dict(name="o", ann="Optional[int]", conf=[None, 3], bad=["", "x", 0.0], lit="None", lit_spec=None),
     "union": dict(name="u", ann="Union[int, str]", conf=[1, "u"], bad=[1.5, None], lit="'w'", lit_spec="w"),
     "literal": dict(name="lit", ann="Literal['a', 'b']", conf=["a", "b"], bad=["c", 1], lit="'a'", lit_spec="a"),
     "bounded": dict(name="b", ann="bounded(int, ge=0)", conf=[0, 3], bad=[-1, "x"], lit="2", lit_spec=2),
@@ -798,6 +798,14 @@ def dnc_class_records():
     without _inplace is then just as much a partial-commit hazard as one with it"""
     return [composite("CompDncClass", [("int", "lit"), ("str", "lit")], do_not_copy=True),
             composite("CompDncClassInv", [("int", "lit"), ("nums", "attr_factory")], do_not_copy=True, invalidated_by={"nums": ["v"]})]
+
+
+def dnc_parent_records():
+    """the PARENT is declared do_not_copy=True (edited in place by design); the judged class is a spec subclass that does not
+    restate the policy: its instances are copied by the copy-on-write helpers (only the inherited attributes are carried over
+    by reference), so the receiver must not change"""
+    return [{"name": "DncParentSub", "attrs": [{"kind": "int", "default": "lit"}, {"kind": "str", "default": "lit"}, {"kind": "nums", "default": "mut"}],
+             "opts": {"do_not_copy": True, "inherit": "spec_sub_add", "sub_inherits_policy": True}}]
 
 
 def empty_state_records():
